@@ -287,8 +287,13 @@ pub fn joints_lattice() -> BoxedStrategy<[f64; 6]> {
     prop::array::uniform6((-8i32..=8).prop_map(|k| k as f64 * PI / 2.0)).boxed()
 }
 
+/// Generic joints with some of them exactly on a multiple of pi/2 (a flange "straight", an axis "at zero": the round readings an operator jogs to).
+pub fn joints_some_lattice() -> BoxedStrategy<[f64; 6]> {
+    prop::array::uniform6(prop_oneof![2 => -PI..PI, 1 => (-4i32..=4).prop_map(|k| k as f64 * PI / 2.0)]).boxed()
+}
+
 pub fn joints_mixed() -> BoxedStrategy<[f64; 6]> {
-    prop_oneof![6 => joints_uniform(), 2 => joints_wide(), 1 => joints_lattice()].boxed()
+    prop_oneof![6 => joints_uniform(), 2 => joints_wide(), 1 => joints_lattice(), 1 => joints_some_lattice()].boxed()
 }
 
 // ---------------------------------------------------------------------------------------------
